@@ -703,6 +703,14 @@ def run(chk: core.Check) -> int:
         seen.add(key)
         cases.append((doc, rng.choice(G.ADHOC_NAMES) if name is None else name, (rng.random() < 0.4) if flag is None else flag))
 
+    corpus_rt = []
+    for f in sorted((core.VERIF / "corpus" / "C17").glob("*.json")):  # minimised past failures / disagreements, run first
+        c = json.loads(f.read_text())
+        c = c.get("replay", c)
+        if c.get("fn") == "adhoc":
+            add(c["doc"], c.get("name", "a"), bool(c.get("default_is_none")))
+        elif c.get("fn") == "runtime":
+            corpus_rt.append(c["case"])
     for t in toks:
         add(t)
     small = [t for t in toks if len(t) <= 12]
@@ -720,9 +728,9 @@ def run(chk: core.Check) -> int:
         for t in itertools.product(core_toks[:22], repeat=4):
             if rng.random() < 0.5:
                 add("".join(t))
-    for _ in range(12000 if chk.quick else 150000):
+    for _ in range(40000 if chk.quick else 300000):
         add(G.adhoc_sentence(rng, toks))
-    for _ in range(8000 if chk.quick else 100000):
+    for _ in range(20000 if chk.quick else 150000):
         add(G.adhoc_random(rng, toks))
     impl = core.pmap(impl_adhoc, cases, chunksize=512)
     model = core.model_batch([{"op": "c17.adhoc", "doc": d, "name": n, "none": f} for d, n, f in cases]) if have_driver else [None] * len(cases)
@@ -781,7 +789,7 @@ def run(chk: core.Check) -> int:
                "correspondence", n_dis == 0 and have_driver, "%d disagreements" % n_dis)
 
     # ---- (3) runtime oracle on the real code ----------------------------------------------------------------------------
-    rcases = [CONTROL_CASE] + FIXED_CASES + gen_runtime_cases(rng, toks, 420 if chk.quick else 6000)
+    rcases = [CONTROL_CASE] + FIXED_CASES + corpus_rt + gen_runtime_cases(rng, toks, 1200 if chk.quick else 12000)
     recs, meta = run_children(rcases)
     if not meta["bound_ok"]:
         chk.oblige("docstring_parsers.parse_adhoc_doc_for_typ is the function of parse_utils (profile sees every call)", "correspondence", False,
